@@ -4,5 +4,5 @@ import SuppModel.Props.C10
 #print axioms SuppModel.Props.C10.C10_never_read_unused
 #print axioms SuppModel.Props.C10.C10_report_fields
 #print axioms SuppModel.Props.C10.C10_once
-#print axioms SuppModel.Props.C10.C10_total_partial
-#print axioms SuppModel.Props.C10.C10_total_witness
+#print axioms SuppModel.Props.C10.C10_total
+#print axioms SuppModel.Props.C10.C10_legacy_witness
